@@ -2057,3 +2057,74 @@ func r079(c *Ctx, r *R) {
 		r.Check(okAll, "crdt."+name+":always-takes-effect", g.Pos(), name+" reaches the trusted set before every successful return", name+" can return success without having updated the trusted set: the call is silently ignored and the peer keeps (or never gets) its trust")
 	}
 }
+
+func init() {
+	register(&Rule{ID: "R09.9", Props: []string{"C09", "C10"}, Floor: 1, Title: "an alert belongs to one failure episode: when the checker observes an unexpired latest metric, the 'already alerted' counter of that peer and metric is cleared (otherwise the next failure is taken for the one already reported, its metrics are forgotten and no alert is ever sent)", Run: r099})
+}
+
+func r099(c *Ctx, r *R) {
+	f := c.fn(r, "monitor/metrics", "Checker.failed")
+	if f == nil {
+		return
+	}
+	// functions that delete from the failedPeers bookkeeping
+	clears := func(g *ssa.Function) bool {
+		found := false
+		instrs(g, func(i ssa.Instruction) {
+			ci, ok := i.(ssa.CallInstruction)
+			if !ok || callName(ci.Common()) != "builtin.delete" {
+				return
+			}
+			m := ci.Common().Args[0]
+			// the map is failedPeers itself or one of its values
+			if fl, _ := fieldLoad(m); fl != nil && fl.Name() == "failedPeers" {
+				found = true
+			}
+			if lk, ok := m.(*ssa.Lookup); ok {
+				if fl, _ := fieldLoad(lk.X); fl != nil && fl.Name() == "failedPeers" {
+					found = true
+				}
+			}
+			if ex, ok := m.(*ssa.Extract); ok {
+				if lk, ok := ex.Tuple.(*ssa.Lookup); ok {
+					if fl, _ := fieldLoad(lk.X); fl != nil && fl.Name() == "failedPeers" {
+						found = true
+					}
+				}
+			}
+		})
+		return found
+	}
+	n := 0
+	for _, ret := range returnsOf(f) {
+		if ret.Block() == f.Recover {
+			continue
+		}
+		// the "healthy" exit: result 3 is the constant false under
+		// Expired() == false
+		k, isK := constOf(retResult(ret, 3))
+		if !isK || k == nil || boolVal(k) {
+			continue
+		}
+		if !guardedBy(ret.Block(), func(g Guard) bool { return gCall(g, false, "api.Metric).Expired") }) {
+			continue
+		}
+		n++
+		cleared := false
+		for _, ci := range callsIn(f) {
+			cal := ci.Common().StaticCallee()
+			if cal == nil || cal.Blocks == nil || !clears(cal) {
+				continue
+			}
+			if ci.Block() == ret.Block() || ci.Block().Dominates(ret.Block()) {
+				if guardedBy(ci.Block(), func(g Guard) bool { return gCall(g, false, "api.Metric).Expired") }) || ci.Block() == ret.Block() {
+					cleared = true
+				}
+			}
+		}
+		r.Check(cleared, "episode:counter-cleared-when-healthy", ret.Pos(), "observing an unexpired metric clears the alert counter of the pair", "the checker never clears a pair's alert counter when it sees the peer healthy again: if the peer renews within one check interval after an alert and fails later, alert() takes the new failure for the one already reported, forgets the metrics and sends nothing - the failure is never reported and the peer's pins are never re-homed")
+	}
+	if n == 0 {
+		r.Und("episode", f.Pos(), "the 'latest metric unexpired: not failed' exit of Checker.failed was not recognised")
+	}
+}
